@@ -343,6 +343,11 @@ Definition defects (c : case) : list string :=
      (when (g "pre" <? thr + 1) ["err-not-enough-shares"] ++
       when (0 <? g "pre.badlen") ["err-invalid-signature"] ++
       when (0 <? g "pre.forged") ["err-invalid-signature"; "err-invalid-inputs"]) ++
+   when (api c "blsThresholdSignatureInspector.VerifyThresholdSignature")
+     (when (negb (g "thresholdSignature" =? 48) || (g "thresholdSignature.genuine" =? 0)) ["false"]) ++
+   (* Equals of keys and of hashes: true exactly for the same value *)
+   when (apis c ["pubKeyBLSBLS12381.Equals"; "pubKeyECDSA.Equals"; "prKeyBLSBLS12381.Equals"; "prKeyECDSA.Equals"; "hash.Hash.Equal"])
+     (if g "same" =? 1 then ["true"] else ["false"]) ++
    (* hash / random constructors and sampling *)
    when (api c "hash.NewKMAC_128") (when ((g "outputSize" <? 0) || (g "key" <? 16)) ["err-other"]) ++
    when (api c "random.NewChacha20PRG") (when (negb (g "seed" =? 32) || (12 <? g "customizer")) ["err-other"]) ++
